@@ -225,6 +225,11 @@ def check_unary(h, name, args, kwargs, has_inplace, seed, twin=False):
             r2 = getattr(w, name)(*args, inplace=True, **kwargs)
             if r2 is not w:
                 bad.append(('inplace-identity', '%s with inplace=True did not return the receiver' % what))
+            elif isinstance(r, AnsiString) and (not (w == r) or model.closed_check(w) != model.closed_check(r)):
+                # (the statement says "equal": ==, and nothing a later operation could tell apart - a style left open at
+                # the end shows when something is appended)
+                bad.append(('inplace-differs', '%s: the in-place result is not == the non-in-place result, or behaves differently '
+                            'when text is appended (%r / %r)' % (what, model.closed_check(w), model.closed_check(r))))
             elif model.alpha_codes(w) != model.alpha_codes(r) or model.renderings(w) != model.renderings(r):
                 bad.append(('inplace-differs', '%s: in-place result %r differs from the non-in-place result %r'
                             % (what, model.alpha_codes(w), model.alpha_codes(r))))
